@@ -71,6 +71,8 @@ typedef struct {
 #define LEDGER_N (1u << LEDGER_BITS)
 static Blk* g_ledger;            /* mmap'ed */
 static uint32_t* g_order;        /* ledger indices in creation order */
+static uintptr_t* g_genaddr;     /* user addresses of general-zone blocks, ascending (bump allocation order) */
+static long g_ngen;
 static long g_nblk;
 static long g_live, g_live_bytes;
 
@@ -110,6 +112,8 @@ static void map_once(void) {
   if (g_ledger == MAP_FAILED) die("cellosim: cannot map ledger\n");
   g_order = mmap(NULL, sizeof(uint32_t) * LEDGER_N, PROT_READ | PROT_WRITE, MAP_PRIVATE | MAP_ANONYMOUS | MAP_NORESERVE, -1, 0);
   if (g_order == MAP_FAILED) die("cellosim: cannot map ledger order\n");
+  g_genaddr = mmap(NULL, sizeof(uintptr_t) * LEDGER_N, PROT_READ | PROT_WRITE, MAP_PRIVATE | MAP_ANONYMOUS | MAP_NORESERVE, -1, 0);
+  if (g_genaddr == MAP_FAILED) die("cellosim: cannot map address index\n");
   size_t fsz = sizeof(uintptr_t) * FREESTACK * (NCLASS + 1);
   uintptr_t* f = mmap(NULL, fsz, PROT_READ | PROT_WRITE, MAP_PRIVATE | MAP_ANONYMOUS | MAP_NORESERVE, -1, 0);
   if (f == MAP_FAILED) die("cellosim: cannot map free stacks\n");
@@ -195,6 +199,7 @@ static void* take_block(size_t n, int zero, int small_calloc) {
       if (g_bump + (1 << 20) > GEN_SIZE) die("cellosim: general zone exhausted\n");
       b = led_find(a, 1);
       b->adv = 0; b->cap = (uint32_t)cap;
+      g_genaddr[g_ngen++] = a;
     }
   }
   if (b->state == BLK_FREED) {
@@ -345,19 +350,26 @@ long arena_live_count(void) { return g_live; }
 long arena_live_bytes(void) { return g_live_bytes; }
 
 int arena_find(const void* p, void** start, size_t* size, int* state) {
-  /* linear scan; only used on error paths and in oracles on small heaps */
+  /* the block (live or freed) whose capacity covers p */
   if (!g_mapped || !arena_owns(p)) return 0;
   uintptr_t a = (uintptr_t)p;
-  for (long k = 0; k < g_nblk; k++) {
-    Blk* b = &g_ledger[g_order[k]];
-    if (b->addr && a >= b->addr && a < b->addr + (b->cap ? b->cap : 1)) {
-      if (start) *start = (void*)b->addr;
-      if (size) *size = b->size;
-      if (state) *state = b->state;
-      return 1;
-    }
+  Blk* b = NULL;
+  if (a >= GEN_BASE && a < GEN_BASE + GEN_SIZE) {
+    long lo = 0, hi = g_ngen - 1, best = -1;
+    while (lo <= hi) { long mid = (lo + hi) / 2; if (g_genaddr[mid] <= a) { best = mid; lo = mid + 1; } else hi = mid - 1; }
+    if (best < 0) return 0;
+    b = led_find(g_genaddr[best], 0);
+  } else if (g_adv_stride) {
+    uint64_t base = (ADV_BASE / g_adv_stride + 1) * g_adv_stride;
+    if (a < base) return 0;
+    uint64_t k = (a - base) / g_adv_stride;
+    b = led_find(base + k * g_adv_stride + g_adv_off, 0);
   }
-  return 0;
+  if (!b || a < b->addr || a >= b->addr + (b->cap ? b->cap : 1)) return 0;
+  if (start) *start = (void*)b->addr;
+  if (size) *size = b->size;
+  if (state) *state = b->state;
+  return 1;
 }
 
 void arena_foreach_live(arena_iter_fn fn, void* ud) {
